@@ -28,6 +28,10 @@ type C18Run struct {
 	Seed     uint64     `json:"seed"`
 	Schedule []hrt.Step `json:"schedule,omitempty"` // recorded; replayed verbatim when present
 	Free     bool       `json:"free"`
+	// ConcFirst: the concurrent phase runs before the sequential reference, so
+	// that nothing was warmed up by an earlier execution of the same inputs
+	// (lazily built package-level tables are exercised cold).
+	ConcFirst bool `json:"conc_first"`
 }
 
 func worldByPkg(ws []*World, pkg string) *World {
@@ -210,38 +214,33 @@ type c18Outcome struct {
 	Excluded int
 }
 
+// procBase is the digest of every package-level variable of the generated
+// files, taken when the process starts, before any generated code ran:
+// "read-only after init" is checked against it, lazy initialisation included.
+var procBase map[string]uint64
+
 func execC18(ws []*World, run *C18Run) *c18Outcome {
 	out := &c18Outcome{}
 	n := len(run.Tasks)
-	// 1. sequential execution: the reference history of every task
-	seq := make([]string, n)
-	keep := make([]int, 0, n)
-	for i := range run.Tasks {
-		t := &run.Tasks[i]
-		w := worldByPkg(ws, t.Pkg)
-		v := hrt.RunSolo(w.budget(len(t.Tokens)+len(t.Input)), taskFunc(ws, t, &seq[i]))
-		if v.Kind != "ok" {
-			out.Excluded++ // does not terminate or panics alone: C09/C11 matter, not a concurrency one
-			continue
-		}
-		keep = append(keep, i)
-	}
-	if len(keep) < 2 {
-		return out
-	}
 	var pkgs []string
 	seenPkg := map[string]bool{}
-	for _, i := range keep {
+	for i := range run.Tasks {
 		if !seenPkg[run.Tasks[i].Pkg] {
 			seenPkg[run.Tasks[i].Pkg] = true
 			pkgs = append(pkgs, run.Tasks[i].Pkg)
 		}
 	}
-	base := globalsHash(ws, pkgs)
+	if procBase == nil {
+		var all []string
+		for _, w := range ws {
+			all = append(all, w.E.Pkg)
+		}
+		procBase = globalsHash(ws, all)
+	}
 	checkGlobals := func(when string) bool {
 		now := globalsHash(ws, pkgs)
-		for k, v := range base {
-			if now[k] != v {
+		for k, v := range now {
+			if procBase[k] != v {
 				out.Sig = map[string]string{"class": "package-state-mutated", "var": k[strings.Index(k, ".")+1:]}
 				out.Detail = fmt.Sprintf("package-level variable %s changed %s", k, when)
 				return false
@@ -249,22 +248,36 @@ func execC18(ws []*World, run *C18Run) *c18Outcome {
 		}
 		return true
 	}
-	conc := make([]string, n)
-	fs := make([]func(), len(keep))
-	budgets := make([]int64, len(keep))
-	for k, i := range keep {
-		t := &run.Tasks[i]
-		fs[k] = taskFunc(ws, t, &conc[i])
-		budgets[k] = 4*worldByPkg(ws, t.Pkg).budget(len(t.Tokens)+len(t.Input)) + 1000
+	seq := make([]string, n)
+	seqOK := make([]bool, n)
+	sequential := func() {
+		for i := range run.Tasks {
+			t := &run.Tasks[i]
+			w := worldByPkg(ws, t.Pkg)
+			v := hrt.RunSolo(w.budget(len(t.Tokens)+len(t.Input)), taskFunc(ws, t, &seq[i]))
+			seqOK[i] = v.Kind == "ok"
+			if !seqOK[i] {
+				out.Excluded++ // does not terminate or panics alone: a C09/C11 matter, not a concurrency one
+			}
+		}
 	}
+	conc := make([]string, n)
 	var verdicts []hrt.Verdict
-	if run.Free {
-		verdicts = hrt.RunFree(fs)
-		checkGlobals("during free-running execution")
-	} else {
+	concurrent := func() bool {
+		fs := make([]func(), n)
+		budgets := make([]int64, n)
+		for i := range run.Tasks {
+			t := &run.Tasks[i]
+			fs[i] = taskFunc(ws, t, &conc[i])
+			budgets[i] = 4*worldByPkg(ws, t.Pkg).budget(len(t.Tokens)+len(t.Input)) + 1000
+		}
+		if run.Free {
+			verdicts = hrt.RunFree(fs)
+			return checkGlobals("during free-running execution")
+		}
 		r := core.NewRand(run.Seed)
 		step := 0
-		victim := r.Intn(len(keep))
+		victim := r.Intn(n)
 		rr := 0
 		choose := func(runnable []int) hrt.Step {
 			if step < len(run.Schedule) {
@@ -306,28 +319,68 @@ func execC18(ws []*World, run *C18Run) *c18Outcome {
 		ok := true
 		atSwitch := func(s int) {
 			if ok && s%16 == 0 {
-				ok = checkGlobals(fmt.Sprintf("by scheduling step %d", s))
+				ok = checkGlobals(fmt.Sprintf("by scheduling step %d of the concurrent phase", s))
 			}
 		}
 		verdicts, out.Trace = hrt.RunConcurrent(fs, budgets, choose, atSwitch)
 		out.Switches = len(out.Trace)
 		if ok {
-			checkGlobals("by the end of the concurrent phase")
+			ok = checkGlobals("by the end of the concurrent phase")
+		}
+		return ok
+	}
+	if run.ConcFirst && !run.Free {
+		if !concurrent() {
+			return out
+		}
+		sequential()
+		if !checkGlobals("during sequential execution") {
+			return out
+		}
+	} else {
+		// free-running tasks have no tick budget: tasks are screened for
+		// termination by the sequential phase first
+		sequential()
+		if !checkGlobals("during sequential execution") {
+			return out
+		}
+		if run.Free {
+			// only tasks that terminate alone may run without a budget
+			var keep []C18Task
+			var kseq []string
+			for i := range run.Tasks {
+				if seqOK[i] {
+					keep = append(keep, run.Tasks[i])
+					kseq = append(kseq, seq[i])
+				}
+			}
+			if len(keep) < 2 {
+				return out
+			}
+			run.Tasks, seq, n = keep, kseq, len(keep)
+			seqOK = make([]bool, n)
+			for i := range seqOK {
+				seqOK[i] = true
+			}
+			conc = make([]string, n)
+		}
+		if !concurrent() {
+			return out
 		}
 	}
-	if out.Sig != nil {
-		return out
-	}
-	for k, i := range keep {
-		if verdicts[k].Kind != "ok" {
-			out.Sig = map[string]string{"class": "concurrent-" + verdicts[k].Kind, "kind": run.Tasks[i].Kind}
-			out.Detail = fmt.Sprintf("task %d (%s on %s) ended with %s when run concurrently but terminated normally when run alone", i, run.Tasks[i].Kind, run.Tasks[i].Pkg, verdicts[k].String())
+	for i := range run.Tasks {
+		if !seqOK[i] {
+			continue
+		}
+		if verdicts[i].Kind != "ok" {
+			out.Sig = map[string]string{"class": "concurrent-" + verdicts[i].Kind, "kind": run.Tasks[i].Kind}
+			out.Detail = fmt.Sprintf("task %d (%s on %s) ended with %s when run concurrently but terminated normally when run alone", i, run.Tasks[i].Kind, run.Tasks[i].Pkg, verdicts[i].String())
 			return out
 		}
 		if conc[i] != seq[i] {
 			out.Sig = map[string]string{"class": "history-differs", "kind": run.Tasks[i].Kind}
-			out.Detail = fmt.Sprintf("task %d (%s on %s): history under concurrency differs from sequential execution\n--- sequential\n%s\n--- concurrent\n%s",
-				i, run.Tasks[i].Kind, run.Tasks[i].Pkg, clipS(seq[i], 1500), clipS(conc[i], 1500))
+			out.Detail = fmt.Sprintf("task %d (%s on %s): history under concurrency differs from sequential execution (concurrent phase first: %v)\n--- sequential\n%s\n--- concurrent\n%s",
+				i, run.Tasks[i].Kind, run.Tasks[i].Pkg, run.ConcFirst, clipS(seq[i], 1500), clipS(conc[i], 1500))
 			return out
 		}
 	}
@@ -342,7 +395,7 @@ func clipS(s string, n int) string {
 }
 
 func genC18(ws []*World, r *core.Rand, free bool) *C18Run {
-	run := &C18Run{Seed: r.Uint64(), Free: free}
+	run := &C18Run{Seed: r.Uint64(), Free: free, ConcFirst: r.Intn(2) == 0}
 	run.Policy = []string{"uniform", "uniform", "rtc", "alternate", "starve"}[r.Intn(5)]
 	k := 2 + r.Intn(5)
 	same := r.Intn(2) == 0
@@ -453,6 +506,9 @@ func runC18(ws []*World, seed uint64, runs, shard, nshard int, free bool, res *R
 			res.Stats["runs_same_grammar"]++
 		} else {
 			res.Stats["runs_mixed_grammars"]++
+		}
+		if run.ConcFirst {
+			res.Stats["runs_concurrent_phase_first"]++
 		}
 		if o.Switches > len(run.Tasks) || free {
 			res.markDistinct(hash64(o.Trace, run.Tasks))
